@@ -1,3 +1,117 @@
-import CalicoVerif.Model.C16
+import CalicoVerif.Proofs.C16j
+/-!
+C16 — IP set sync converges and never breaks rules that use a set.
+Property theorems over the model `CalicoVerif.Model.C16` of felix/ipsets (`IPSets`) and of the
+`ipset` command.  `W` = Felix state + kernel + failure plan (which restore/list/destroy calls
+fail and where) + order hints (Go map iteration orders); every theorem below is for ALL `W`,
+i.e. all start kernels, all in-memory states, all failure plans, all orders.
+
+What is NOT proved in Lean (checked only by the correspondence run and by the harness oracle on
+the real code): the convergence clause itself ("after a successful apply every desired set is
+exactly as desired and no other owned set remains") — see `level_note` in checks/C16.json.
+-/
 namespace CalicoVerif.C16
+
+/-- **never_destroy_desired, line granularity**: no `ipset restore` line ever removes a set, so
+after every single line (also of a restore that fails part-way) every set that existed still exists. -/
+theorem never_destroy_desired_per_line (n : String) (ls : List Line) (K : Kernel)
+    (h : K.has n = true) : ∀ Ki ∈ kstates K ls, Ki.has n = true :=
+  kstates_has_mono ls K h
+
+/-- **never_destroy_desired, ApplyUpdates**: over the whole retry loop (resyncs, temporary-set
+clean-up, up to ten restore attempts, any failures), every set that is desired and present in
+the kernel at the start is still present at the end. -/
+theorem never_destroy_desired_applyUpdates (w : W) (n : String)
+    (hd : w.F.desired.has n = true) (hk : w.K.has n = true) : w.applyUpdates.1.K.has n = true :=
+  (applyUpdates_KD w).2.2 n hd hk
+
+/-- **never_destroy_desired, ApplyDeletions**: `ApplyDeletions` only destroys sets that are not desired. -/
+theorem never_destroy_desired_applyDeletions (w : W) (n : String)
+    (hd : w.F.desired.has n = true) (hk : w.K.has n = true) : w.applyDeletions.1.K.has n = true :=
+  (applyDeletions_KD w).2.2 n hd hk
+
+/-- **foreign_untouched, ApplyUpdates** (`_partial`: the hypothesis `hD` "every desired name is one
+Felix owns" is assumed; it holds because desired names are `NameForMainIPSet` names, but its
+preservation by the API calls is not proved here).  For every failure plan, order and start
+state, a set whose name Felix does not own is bit-for-bit unchanged by `ApplyUpdates`. -/
+theorem foreign_untouched_applyUpdates_partial (w : W) (hc : CfgOK w.cfg)
+    (hD : ∀ n, w.F.desired.has n = true → w.cfg.owns n = true)
+    (x : String) (hx : w.cfg.owns x = false) : w.applyUpdates.1.K.get x = w.K.get x :=
+  (applyUpdates_FU w hc hD).2.2 x hx
+
+/-- **foreign_untouched, ApplyDeletions** (`_partial`: the hypothesis `hP` "Felix's view of the
+dataplane only contains names it owns" is assumed; names enter the view only through the
+`OwnsIPSet` filter of the listing or as names Felix wrote, but that invariant is not proved here;
+the harness checks it on the real code after every apply). -/
+theorem foreign_untouched_applyDeletions_partial (w : W)
+    (hP : ∀ n ∈ w.F.dp.keys, w.cfg.owns n = true)
+    (x : String) (hx : w.cfg.owns x = false) : w.applyDeletions.1.K.get x = w.K.get x :=
+  (applyDeletions_FU w hP).2.2 x hx
+
+/-- **swap_atomic**: what `writeUpdates` writes for a set `n` (for every visiting order `ord` of
+the member iterations).  Either the set is updated in place, and then every line targets `n`,
+only desired members are added and only undesired members deleted (the visible contents stay
+between old∩desired and old∪desired); or its metadata changes, and then the lines build a
+temporary set and the LAST line swaps it in: in every kernel state reached while running the
+lines before that swap, the visible set `n` is exactly what it was. -/
+theorem swap_atomic {c : Cfg} (hc : CfgOK c) {ord : List String → List String}
+    (hord : ∀ l x, x ∈ ord l → x ∈ l) {F F' : Felix} {n : String} {ls : List Line}
+    (hn : c.isTemp n = false) (h : F.writeUpdates c ord n = some (F', ls)) (K : Kernel) :
+    ∃ t, F.members.get n = some t ∧
+      ((∀ l ∈ ls, l.names = [n] ∧ (∀ m, l = Line.add n m → m ∈ t.des) ∧ (∀ m, l = Line.del n m → m ∉ t.des)) ∨
+       (∃ tmp body, ls = body ++ [Line.swap n tmp] ∧ ∀ Ki ∈ kstates K body, Ki.get n = K.get n)) := by
+  obtain ⟨t, ht, hs⟩ := writeUpdates_shape hord h
+  refine ⟨t, ht, ?_⟩
+  rcases hs with hs | ⟨k, body, hb, hnames⟩
+  · exact Or.inl hs
+  · refine Or.inr ⟨c.tempName k, body, hb, ?_⟩
+    apply kstates_get_other
+    intro l hl hmem
+    rw [hnames l hl] at hmem
+    simp only [List.mem_singleton] at hmem
+    have := hc.tempIsTemp k
+    rw [← hmem, hn] at this
+    exact absurd this (by simp)
+
+/-! ### Non-vacuity -/
+
+/-- The real IPv4 configuration satisfies `CfgOK`. -/
+example : CfgOK realCfg := realCfg_ok
+
+/-- A concrete world: Felix wants `cali40a = {10.0.0.1}` (hash:ip), the kernel holds a stale
+`cali40a` of another type, a stale temp set and a foreign set.  `ApplyUpdates` succeeds, swaps the
+desired set in, and the foreign set is untouched. -/
+def exW : W :=
+  { cfg := realCfg
+    F := Felix.addOrReplace realCfg {} "a" ⟨"hash:ip", 100, 0, 0, false, false⟩ ["10.0.0.1"]
+    K := [("cali40a", ⟨"hash:net", 100, 0, 0, ["10.1.0.0/16"], false, false⟩),
+          ("cali4t0", ⟨"hash:ip", 100, 0, 0, [], false, false⟩),
+          ("foo", ⟨"hash:ip", 5, 0, 0, ["1.1.1.1"], false, false⟩)]
+    hintR := [["cali40a"]], hintD := ["cali4t0"] }
+
+example : exW.F.desired.has "cali40a" = true ∧ exW.K.has "cali40a" = true ∧ exW.cfg.owns "foo" = false := by decide
+theorem exW_desired : exW.F.desired = [("cali40a", ⟨"hash:ip", 100, 0, 0, false, false⟩)] := by decide
+
+/-- `exW` satisfies the hypotheses of the foreign-untouched theorems. -/
+example : ∀ n, exW.F.desired.has n = true → exW.cfg.owns n = true := by
+  intro n hn
+  rw [exW_desired] at hn
+  simp only [Map.has, Map.get, List.lookup] at hn
+  by_cases h : n = "cali40a"
+  · subst h; decide
+  · have : (n == "cali40a") = false := by simp [h]
+    simp [this] at hn
+example : ∀ n ∈ exW.F.dp.keys, exW.cfg.owns n = true := by decide
+
+/-- `swap_atomic` is not vacuous: a set whose metadata differs from the dataplane's takes the
+temporary-set branch (hypotheses satisfied by a concrete state). -/
+def exF : Felix :=
+  { desired := [("cali40a", ⟨"hash:ip", 200, 0, 0, false, false⟩)]
+    dp := [("cali40a", ⟨"hash:ip", 100, 0, 0, false, false⟩)]
+    members := [("cali40a", ⟨["10.0.0.2"], ["10.0.0.1"]⟩)] }
+
+example : realCfg.isTemp "cali40a" = false := by decide
+example : ∃ F' ls, exF.writeUpdates realCfg id "cali40a" = some (F', ls) := ⟨_, _, rfl⟩
+example : needTemp (exF.dp.get "cali40a") ⟨"hash:ip", 200, 0, 0, false, false⟩ = true := by decide
+
 end CalicoVerif.C16
